@@ -13,10 +13,10 @@ CONSTANTS
   PUB = {"unset"}
   FK = {"ok"}
   SF = {"S1"}
-  RCBS = {"B", "bad"}
+  RCBS = {"B", "bad", "badfirst"}
   RCAS = {"unset", "A", "badonly"}
-  RCBD = {"B", "bad"}
-  RPBL = {"unset", "bad"}
+  RCBD = {"B", "bad", "badfirst"}
+  RPBL = {"unset", "bad", "badfirst"}
   RGEO = {"unset"}
   RPUB = {"unset"}
   RFK = {"ok", "syntax", "wrongtype", "unreadable"}
